@@ -140,7 +140,7 @@ def run(ctx, driver):
     ctx.rule = ("metamorphic pairs: (i) permuted entry order, (ii) consistent injective renaming of variables and parameters, (iii) equivalent formulations of a homogeneous "
                 "linear shape (function of time / n-th order ODE / chain of first-order ODEs, optionally read by another equation); both sides analysed by the real code; "
                 "success status, analytic sets and update maps / initial values (as values at corresponding random points) compared; distinct = distinct pairs; "
-                "non-trivial = both sides analysed successfully with >= 2 state variables")
+                "non-trivial = both sides analysed successfully with >= 2 state variables; (iv) the same higher-order entry with its initial values written in another order; new names incl. names from the marker's alphabet (V_d, x_, pairs V / V_d)")
     cases = gen_cases(ctx, ctx.n(60, 1200))
     results = pool.run_cases("harness.core.cases", "case_twin", cases, timeout=ctx.n(90, 200), init="init_worker", deadline=ctx.deadline())
     for case, res in zip(cases, results):
